@@ -24,6 +24,16 @@ func (sel *Selection) XFind(path *xpath.Path) (*Selection, error) {
 }
 
 func (sel *Selection) XPredicate(p *xpath.Path) (bool, error) {
-	found, err := sel.XFind(p)
+	// a predicate is decided on the data as the browser presents it. The
+	// constraints of the request in progress must not apply to the lists
+	// the predicate iterates itself: a 'where' would be evaluated again, on
+	// the entries of every list its own path crosses.
+	probe := sel
+	if sel.Browser != nil {
+		copy := *sel
+		copy.Constraints = sel.Browser.baseConstraints()
+		probe = &copy
+	}
+	found, err := probe.XFind(p)
 	return found != nil, err
 }
